@@ -126,6 +126,8 @@ def put_request(scn, step, conv, fuel=400):
             verbose += 1
         elif a == '-vv':
             verbose += 2
+        elif a == '--all-users':
+            au = True
         elif a in ('-d', '-r', '-R', '--directory', '--recursive'):
             pass
         else:
@@ -152,9 +154,22 @@ def _env_uid(scn, step):
     return env, scn.get('uid', 0)
 
 
+def users_tok(step, all_users):
+    """the password database --all-users walks, as the model takes it: 'N' without the option, else (pw_dir, pw_uid)*.  Only a faked
+    database (step['users']) is known to the harness; with the real one the run is left to the oracles."""
+    if not all_users:
+        return 'N'
+    if step.get('users') is None:
+        return None
+    items = []
+    for _name, uid, home in step['users']:
+        items += [home, str(uid)]
+    return tok_l(items) if items else 'l-'
+
+
 def list_request(scn, step, conv):
     argv = list(step.get('argv') or [])
-    tds, size, files = [], False, False
+    tds, size, files, au = [], False, False, False
     i = 0
     while i < len(argv):
         a = argv[i]
@@ -167,16 +182,21 @@ def list_request(scn, step, conv):
             size = True
         elif a == '--files':
             files = True
+        elif a == '--all-users':
+            au = True
         else:
             return None
         i += 1
     env, uid = _env_uid(scn, step)
-    return ('run_list', [tok_l(tds), tok_b(size), tok_b(files), env_tok(env), tok_n(uid)] + [a for _, a in conv]), 0
+    users = users_tok(step, au)
+    if users is None:
+        return None
+    return ('run_list', [tok_l(tds), tok_b(size), tok_b(files), env_tok(env), tok_n(uid), users] + [a for _, a in conv]), 0
 
 
 def empty_request(scn, step, conv):
     argv = list(step.get('argv') or [])
-    tds, inter, days, dry, verbose = [], 0, None, False, 0
+    tds, inter, days, dry, verbose, au = [], 0, None, False, 0, False
     i = 0
     while i < len(argv):
         a = argv[i]
@@ -195,14 +215,19 @@ def empty_request(scn, step, conv):
             verbose += 1
         elif a == '-vv':
             verbose += 2
+        elif a == '--all-users':
+            au = True
         elif a.isdigit() and a.isascii() and days is None:
             days = int(a)
         else:
             return None
         i += 1
     env, uid = _env_uid(scn, step)
+    users = users_tok(step, au)
+    if users is None:
+        return None
     return ('run_empty', [tok_l(tds), tok_n(inter), 'N' if days is None else tok_z(days), tok_b(dry), tok_n(verbose),
-                          env_tok(env), tok_n(uid)] + [a for _, a in conv]), 0
+                          env_tok(env), tok_n(uid), users] + [a for _, a in conv]), 0
 
 
 def rm_request(scn, step, conv):
